@@ -393,7 +393,13 @@ def main(prop, tier, seed, only_facets=None):
                         crash_violations.append({"facet": fname, "spec": crumb, "key": "hang",
                                                  "message": "the code under test did not return within %.0f s on this case" % budget})
                     else:
-                        harness_errors.append("inconclusive: %s[%d] exceeded the %.0f s budget" % (fname, shard, budget))
+                        where = ""
+                        if crumb is not None:     # keep the case that was running, for diagnosis
+                            where = os.path.join(VERIF, ".work", "last-timeout-%s-%s-%d.json" % (prop, fname, shard))
+                            with open(where, "w") as f:
+                                json.dump({"property": prop, "facet": fname, "seed": seed, "spec": crumb}, f)
+                            where = " (case in progress saved to %s)" % where
+                        harness_errors.append("inconclusive: %s[%d] exceeded the %.0f s budget%s" % (fname, shard, budget, where))
                 elif rc is not None and rc < 0 and crumb is not None:
                     crash_violations.append({"facet": fname, "spec": crumb, "key": "crash:signal%d" % -rc,
                                              "message": "process killed by signal %d while the code under test ran this case" % -rc})
